@@ -2063,3 +2063,86 @@ def rule_render_once_per_child(ctx, rep: Report, rid="Z6", package="gtwrap/inter
                     f"reached while parsing through {' <- '.join(path)}", f"{mi.rel}:{fn.lineno}", nontrivial=bool(groups))
     if n < 4:
         raise AnalysisError(f"{rep.prop}/{rid}: only {n} structurally recursive methods found in {package}")
+
+
+def rule_typedef_target_kinds(ctx, rep: Report, rid="V8"):
+    """A typedef names a class template, a function template or a forward declaration.  instantiate_namespace dispatches on
+    the kind of the element the name resolved to and has a branch for exactly these kinds; a target of any other kind
+    (an enum, a variable, a namespace of that name) would fall through the chain and the typedef would vanish from the
+    output without a word.  So either the look-up (Namespace.find_class_or_function) admits only candidates of kinds the
+    dispatch handles, or the dispatch ends in a raising `else`."""
+    prog = ctx.prog
+    ins = prog.module("gtwrap/template_instantiator/namespace.py").functions.get("instantiate_namespace")
+    ns_ci = prog.cls("Namespace")
+    look = prog.find_method(ns_ci, "find_class_or_function")
+    if ins is None or look is None:
+        raise AnalysisError("instantiate_namespace / Namespace.find_class_or_function not found")
+
+    def kinds_of(e) -> Set[str]:
+        es = e.elts if isinstance(e, (ast.Tuple, ast.List)) else [e]
+        return {unparse(x).split(".")[-1] for x in es}
+    # the dispatch: the if/elif chain on the resolved element inside the typedef branch
+    handled: Set[str] = set()
+    raising_else = False
+    chain_loc = ins.lineno
+    for i in ast.walk(ins):
+        if isinstance(i, ast.If) and isinstance(i.test, ast.Call) and unparse(i.test.func) == "isinstance" and "TypedefTemplateInstantiation" in unparse(i.test.args[1]):
+            for j in i.body:
+                cur = j
+                while isinstance(cur, ast.If) and isinstance(cur.test, ast.Call) and unparse(cur.test.func) == "isinstance":
+                    subj = unparse(cur.test.args[0])
+                    if subj != unparse(i.test.args[0]):
+                        handled |= kinds_of(cur.test.args[1])
+                        chain_loc = cur.lineno
+                    nxt = cur.orelse
+                    if len(nxt) == 1 and isinstance(nxt[0], ast.If):
+                        cur = nxt[0]
+                    else:
+                        raising_else = any(isinstance(x, ast.Raise) for s_ in nxt for x in ast.walk(s_))
+                        cur = None
+    # dispatch through a (kind, constructor) table
+    if not handled:
+        for t in ast.walk(ins):
+            if isinstance(t, (ast.Dict,)):
+                handled |= {unparse(k).split(".")[-1] for k in t.keys if k is not None and unparse(k).startswith("parser.")}
+            if isinstance(t, (ast.Tuple, ast.List)) and t.elts and all(isinstance(x, ast.Tuple) and len(x.elts) == 2 and unparse(x.elts[0]).startswith("parser.") for x in t.elts):
+                handled |= {unparse(x.elts[0]).split(".")[-1] for x in t.elts}
+    if not handled:
+        # ... or a module-level table walked by a loop in the function
+        imod = prog.module("gtwrap/template_instantiator/namespace.py")
+        tables = {st.targets[0].id: st.value for st in imod.tree.body if isinstance(st, ast.Assign) and len(st.targets) == 1
+                  and isinstance(st.targets[0], ast.Name) and isinstance(st.value, (ast.Tuple, ast.List, ast.Dict))}
+        for l in ast.walk(ins):
+            if isinstance(l, ast.For) and isinstance(l.iter, (ast.Name, ast.Call)):
+                nm = l.iter.id if isinstance(l.iter, ast.Name) else (unparse(l.iter.func.value) if isinstance(l.iter.func, ast.Attribute) else None)
+                t = tables.get(nm)
+                if isinstance(t, (ast.Tuple, ast.List)) and t.elts and all(isinstance(x, ast.Tuple) and len(x.elts) == 2 for x in t.elts):
+                    handled |= {unparse(x.elts[0]).split(".")[-1] for x in t.elts if unparse(x.elts[0]).startswith("parser.")}
+                    raising_else = any(isinstance(x, ast.Raise) for s_ in l.orelse for x in ast.walk(s_))
+                    chain_loc = l.lineno
+                elif isinstance(t, ast.Dict):
+                    handled |= {unparse(k).split(".")[-1] for k in t.keys if k is not None and unparse(k).startswith("parser.")}
+                    chain_loc = l.lineno
+    if not handled:
+        raise AnalysisError("instantiate_namespace: dispatch on the kind of a typedef's target not found")
+    admitted: Optional[Set[str]] = None
+    lf = look[1]
+    lla = local_assignments(lf)
+    for c in ast.walk(lf):
+        if isinstance(c, ast.Call) and unparse(c.func) == "isinstance" and len(c.args) == 2 and isinstance(c.args[0], ast.Name):
+            karg = c.args[1]
+            if isinstance(karg, ast.Name):
+                vs = [st.value for st in lla.get(karg.id, []) if isinstance(st, ast.Assign)]
+                if len(vs) == 1:
+                    karg = vs[0]
+            comp = enclosing(c, (ast.GeneratorExp, ast.ListComp))
+            loop = enclosing(c, ast.For)
+            over_content = (comp is not None and any("content" in unparse(g.iter) for g in comp.generators)) or \
+                (loop is not None and "content" in unparse(loop.iter))
+            if over_content:
+                admitted = (admitted or set()) | kinds_of(karg)
+    ok = raising_else or (admitted is not None and admitted <= handled)
+    rep.add(rid, "typedef target:every kind of element the look-up can return has a branch in instantiate_namespace (or the chain raises)", ok,
+            f"look-up admits {sorted(admitted) if admitted is not None else 'elements of any kind (matched by name only)'}, the dispatch handles {sorted(handled)}"
+            f"{' and raises otherwise' if raising_else else ' and has no else'}: `enum Kind {{A}}; typedef Kind<double> KD;` resolves to the enum, matches no branch, "
+            f"and the typedef disappears from both generators' output instead of being rejected", f"{ins and 'gtwrap/template_instantiator/namespace.py'}:{chain_loc}")
